@@ -12,7 +12,7 @@ import (
 
 func init() {
 	Register(&Scenario{Prop: "C12", Name: "malformed-messages", Run: scenC12, SoftParks: true, Weight: 1,
-		Rule: "honest writer W and receiver R sharing 1-2 databases, and a hostile peer that is present on the database topics and on the pairwise direct channel with R; W writes, real announcements are captured from the wire; then 3-10 (thorough 3-24) hostile payloads, each from one generator class {random bytes, JSON with heads null / [] / [null] / ill-typed / empty objects, a real head with one of identity, clock, hash, key, sig, next, id, payload removed or nulled, byte flip / delete / splice / truncate / duplicate of a captured real message, huge JSON nesting, wrong address field} sent on the database topic or on the direct channel; one payload in three is followed by a race: W writes and a corrupted twin of its fresh announcement (same claimed hash) is delivered to R in the same quantum as the real one, whose entry must still reach R before any later write (one variant drops W's own announcement and has the hostile peer relay the genuine bytes on its direct channel with R, a broken payload right behind them); after each payload: the worker process is alive, every entry in R's logs is one an honest writer wrote and R's views equal the replay of its logs; finally W writes to every database and each new entry must reach R within 90 virtual seconds; non-trivial = >=3 payloads from >=3 classes over both routes"})
+		Rule: "honest writer W and receiver R sharing 1-2 databases, and a hostile peer that is present on the database topics and on the pairwise direct channel with R; W writes, real announcements are captured from the wire; then 3-10 (thorough 3-24) hostile payloads, each from one generator class {random bytes, JSON with heads null / [] / [null] / ill-typed / empty objects, a real head with one of identity, clock, hash, key, sig, next, id, payload removed or nulled, byte flip / delete / splice / truncate / duplicate of a captured real message, huge JSON nesting, wrong address field, a real head followed in the same message by a copy of it under the address of another block} sent on the database topic or on the direct channel, one in four (and every message of the last class) with a second hostile payload right behind it on the same route; one payload in three is followed by a race: W writes and a corrupted twin of its fresh announcement (same claimed hash) is delivered to R in the same quantum as the real one, whose entry must still reach R before any later write (one variant drops W's own announcement and has the hostile peer relay the genuine bytes on its direct channel with R, a broken payload right behind them); after each payload: the worker process is alive, every entry in R's logs is one an honest writer wrote and R's views equal the replay of its logs; finally W writes to every database and each new entry must reach R within 90 virtual seconds; non-trivial = >=3 payloads from >=3 classes over both routes"})
 }
 
 func init() {
@@ -134,10 +134,29 @@ func scenC12(k *K) {
 		k.W.mu.Lock()
 		k.W.tr("malformed %s via %s: %.80q", class, route, payload)
 		k.W.mu.Unlock()
-		if route == "topic" {
-			adv.PublishRaw(d.addr, payload)
-		} else {
-			adv.PublishRaw(PairTopic(adv.Node, peers[1].Node), payload)
+		send := func(payload []byte) {
+			if route == "topic" {
+				adv.PublishRaw(d.addr, payload)
+			} else {
+				adv.PublishRaw(PairTopic(adv.Node, peers[1].Node), payload)
+			}
+		}
+		send(payload)
+		if class == "real-head-then-readdressed-copy" || k.C.Chance(1, 4) {
+			// a second payload right behind the first, on the same route: it is decoded while
+			// whatever the first one started is still under way
+			class2, payload2 := c12Payload(k, d.addr, captured)
+			if class == "real-head-then-readdressed-copy" && k.C.Chance(2, 3) {
+				class2 = "json-shapes"
+				payload2 = []byte(fmt.Sprintf([]string{`{"address":"%s","heads":[null]}`, `{"address":"%s","heads":[{"hash":{"/":"bafyreigdmqpykrgxyaxtlafqpqhzrb7qy2rh75nldvfd4tucqmqqme3bxu"}}]}`}[k.C.Intn(2)], d.addr))
+			}
+			classes[class2] = true
+			k.W.Stat("malformed:" + class2)
+			k.W.Stat("malformed-back-to-back")
+			k.W.mu.Lock()
+			k.W.tr("malformed %s via %s right behind: %.80q", class2, route, payload2)
+			k.W.mu.Unlock()
+			send(payload2)
 		}
 		k.Steps(k.C.Range(2, 12))
 		if k.C.Chance(1, 4) {
@@ -346,7 +365,27 @@ func c12Payload(k *K, addr string, captured [][]byte) (string, []byte) {
 		}
 		return append([]byte(nil), captured[k.C.Intn(len(captured))]...)
 	}
-	switch k.C.Intn(10) {
+	switch k.C.Intn(11) {
+	case 9:
+		// a real announcement whose head is followed, in the same message, by a copy of it
+		// under the address of another block (write access and signature hold, the hash does
+		// not match): the message is refused half-way through
+		var msg map[string]interface{}
+		if err := json.Unmarshal(real(), &msg); err == nil {
+			if heads, _ := msg["heads"].([]interface{}); len(heads) > 0 {
+				if h, _ := heads[0].(map[string]interface{}); h != nil {
+					twin := map[string]interface{}{}
+					for f, v := range h {
+						twin[f] = v
+					}
+					twin["hash"] = map[string]interface{}{"/": "bafyreigdmqpykrgxyaxtlafqpqhzrb7qy2rh75nldvfd4tucqmqqme3bxu"}
+					msg["heads"] = []interface{}{h, twin}
+					b, _ := json.Marshal(msg)
+					return "real-head-then-readdressed-copy", b
+				}
+			}
+		}
+		return "empty", []byte{}
 	case 0:
 		n := k.C.Range(0, 300)
 		b := make([]byte, n)
